@@ -593,14 +593,32 @@ func (w *worker) runSeq1(seq []int, frac time.Duration) *outcome {
 	}
 
 	// ---- rows in the destination measurement ----
-	var want []hx.Row
-	for _, x := range o.windows {
-		if x.Status == "completed" {
-			want = append(want, expectRows(w.rows, x.Def, x.s, x.e)...)
-		}
-	}
 	got := s.destRows()
 	o.dest = len(got)
+	gotN := map[string]int{}
+	for _, r := range got {
+		gotN[r.Key()]++
+	}
+	var want []hx.Row
+	for _, x := range o.windows {
+		if x.Status != "completed" {
+			continue
+		}
+		rows := expectRows(w.rows, x.Def, x.s, x.e)
+		if seq[x.Ev] == eSchedWrite {
+			// the execution handed its rows to the asynchronous ingest buffer and completed; that the later
+			// storage write of buffered rows failed is not this property's subject (durability of buffered
+			// rows is C07's): such rows are neither demanded nor forbidden
+			for _, r := range rows {
+				if gotN[r.Key()] > 0 {
+					gotN[r.Key()]--
+					want = append(want, r)
+				}
+			}
+			continue
+		}
+		want = append(want, rows...)
+	}
 	classifyRows(o, want, got)
 	return o
 }
@@ -822,7 +840,7 @@ func runShard(run *ev.Run, idx, total int) {
 						counters["histories_with_2+_completed_windows"]++
 					}
 					if length == p.depth && nc >= 2 && nf >= 1 {
-						var ks []string
+						ks := []string{}
 						for kind := range o.kinds {
 							ks = append(ks, kind)
 						}
@@ -1005,7 +1023,7 @@ func main() {
 	run.Coverage["histories_violating"] = counters["histories_violating"]
 	run.Coverage["explanation"] = "states = distinct observable states (clock offset, definition, last_processed_time, execution log, destination files) reached; transitions = events executed on the real handler/scheduler/DuckDB/ArrowBuffer; every history is a trace compared with the tiling oracle and an independent aggregation of the seeded source rows"
 	run.Assume("clock: time.Now/Since in internal/api/continuous_query.go read the virtual clock, frozen between tick events; the scheduler's ticker is not used — a scheduled execution is CQScheduler.executeJob called synchronously for the registered job (what runJob does on a tick)")
-	run.Assume("the ArrowBuffer is flushed explicitly after every execution event (stands for the 5 s age flush, far shorter than the 10 s minimum CQ interval); during sched@dest-write-fails the execution and that flush both see storage.Write fail; sched@source-unreadable takes the source measurement directory offline for the execution")
+	run.Assume("the ArrowBuffer is flushed explicitly after every execution event (stands for the 5 s age flush, far shorter than the 10 s minimum CQ interval); during sched@dest-write-fails the execution and that flush both see storage.Write fail (if the execution still completes because the write is asynchronous, its output rows are neither demanded nor forbidden: buffered-row durability is C07's subject); sched@source-unreadable takes the source measurement directory offline for the execution")
 	run.Assume("restart is graceful (scheduler.Stop, ArrowBuffer.Close, handler.Close, then new objects over the same SQLite file and store); no WAL is attached to the ArrowBuffer")
 	run.Assume("manual(range) is a backfill of [base-90m, base-75m), older than any default window; interval I = 1m (the scheduler's real ticker never fires); tag_columns=[host]; two definitions (implicit label / explicit CAST({start_time} AS TIMESTAMP) AS time)")
 	run.Finish()
